@@ -30,9 +30,9 @@ CONSTANTS Names,        \* {"device", "attestation", "ui", "signer"}
 Ghost  == "ghost"        \* a name that is never an element
 Absent == "absent"
 
-VARIABLES targets, by, link, rootkey, used, swap, shape,           \* Env
+VARIABLES targets, by, link, rootkey, used, swap, shape, spell,    \* Env
           phase, sub, ti, cur, visited, chain, certifier, result, steps   \* Sys
-envv == <<targets, by, link, rootkey, used, swap, shape>>
+envv == <<targets, by, link, rootkey, used, swap, shape, spell>>
 sysv == <<phase, sub, ti, cur, visited, chain, certifier, result, steps>>
 vars == <<envv, sysv>>
 
@@ -92,7 +92,11 @@ RK   == IF rootkey = "?" THEN "k_root" ELSE rootkey
 
 TargetSeqs == UNION {[1..k -> Names \cup {Ghost}] : k \in 0..MaxTargets}
 
-Init == /\ targets \in TargetSeqs
+\* spell: how the hex fields of the file are written.  "ok" stands for every accepted spelling of the
+\* same bytes (canonical or not: the harness renders them all, the behaviour must be the same);
+\* "refused" = some field of some element - on or off any target's path - is written in a way the loader
+\* refuses: the elements are built before any target is looked at, so nothing else is read.
+Init == /\ targets \in TargetSeqs /\ spell \in {"ok", "refused"}
         /\ by = (Ghost :> Absent) /\ link = <<>> /\ rootkey = "?" /\ used = 0 /\ swap = <<>> /\ shape = <<>>
         /\ phase = "parse" /\ sub = "enter" /\ ti = 1 /\ cur = NoName /\ visited = {}
         /\ chain = <<>> /\ certifier = Root /\ result = <<>> /\ steps = 0
@@ -100,7 +104,8 @@ Init == /\ targets \in TargetSeqs
 (***************************************************************************)
 (* Env: lazy decisions                                                     *)
 (***************************************************************************)
-NeedBy == IF phase = "parse" /\ sub = "enter" /\ ti <= Len(targets) THEN targets[ti]
+NeedBy == IF spell = "refused" THEN NoName
+          ELSE IF phase = "parse" /\ sub = "enter" /\ ti <= Len(targets) THEN targets[ti]
           ELSE IF phase = "parse" /\ sub = "walk" /\ cur \notin visited /\ by[cur] # Root THEN by[cur]
           ELSE NoName
 
@@ -108,7 +113,7 @@ DecideBy == /\ NeedBy # NoName /\ NeedBy \notin DOMAIN by
             /\ \E p \in Names \cup {Root, Ghost, Absent} :
                  /\ (p = Absent) => ~(swap # <<>> /\ swap[2] = NeedBy)
                  /\ by' = (NeedBy :> p) @@ by
-            /\ UNCHANGED <<targets, link, rootkey, used, swap, shape, sysv>>
+            /\ UNCHANGED <<targets, link, rootkey, used, swap, shape, spell, sysv>>
 
 NeedLink == IF phase = "validate" /\ sub = "check" THEN cur ELSE NoName
 
@@ -150,7 +155,7 @@ DecideLink ==
                       /\ link' = L(by[n], tw, "sigSwap", m)
                       /\ swap' = <<n, m>>
                  /\ used' = used + 1
-    /\ UNCHANGED <<targets, by, rootkey, shape, sysv>>
+    /\ UNCHANGED <<targets, by, rootkey, shape, spell, sysv>>
 
 \* the message shape of an element, decided when the element is first used as a certifier (it has been
 \* checked itself by then).  Corruptions of the message are only combined with the canonical shape;
@@ -164,13 +169,13 @@ DecideShape ==
                    /\ c \notin {"msgFlipKey", "msgFlipOther", "keySubst"}
                    /\ (ShapeWithCorr \/ c \in {"ok", "swapped"})
        IN \E sh \in {"canon"} \cup (IF free THEN Shapes ELSE {}) : shape' = (n :> sh) @@ shape
-    /\ UNCHANGED <<targets, by, link, rootkey, used, swap, sysv>>
+    /\ UNCHANGED <<targets, by, link, rootkey, used, swap, spell, sysv>>
 
 DecideRoot == /\ phase = "validate" /\ sub = "check" /\ certifier = Root /\ rootkey = "?"
               /\ \/ rootkey' = "k_root" /\ UNCHANGED used
                  \/ /\ used < MaxCorr /\ "wrongRoot" \in CorrKinds
                     /\ rootkey' = "k_x" /\ used' = used + 1
-              /\ UNCHANGED <<targets, by, link, swap, shape, sysv>>
+              /\ UNCHANGED <<targets, by, link, swap, shape, spell, sysv>>
 
 (***************************************************************************)
 (* Sys: _parse                                                             *)
@@ -178,7 +183,8 @@ DecideRoot == /\ phase = "validate" /\ sub = "check" /\ certifier = Root /\ root
 Tick == steps' = steps + 1
 
 PEnter == /\ phase = "parse" /\ sub = "enter"
-          /\ IF ti > Len(targets)
+          /\ IF spell = "refused" THEN phase' = "error" /\ UNCHANGED <<sub, ti, cur, visited>>
+             ELSE IF ti > Len(targets)
              THEN /\ phase' = "validate" /\ ti' = 1 /\ UNCHANGED <<sub, cur, visited>>
              ELSE /\ targets[ti] \in DOMAIN by
                   /\ IF by[targets[ti]] = Absent
@@ -243,8 +249,9 @@ Agree == phase = "done" =>
                /\ result[targets[i]] = SpecVerdict(Cert, RK, targets[i])
 AgreeJudge == phase = "done" =>
             \A i \in 1..Len(targets) : JudgeTarget(Cert, RK, targets[i], result[targets[i]]) = ""
-LoadIffWellFormed == /\ phase = "error" => ~WellFormed(Cert, targets)
-                     /\ phase \in {"validate", "done"} => WellFormed(Cert, targets)
+SpellNow == IF spell = "refused" THEN "odd" ELSE ""      \* (any refused member / any accepted one)
+LoadIffWellFormed == /\ phase = "error" => ~Loadable(Cert, targets, SpellNow)
+                     /\ phase \in {"validate", "done"} => Loadable(Cert, targets, SpellNow)
 \* a verdict, once given, is never changed by anything decided or computed later
 Stable == [][\A x \in DOMAIN result : x \in DOMAIN result' /\ result'[x] = result[x]]_vars
 Bounded == steps <= Len(targets) * (3 * Cardinality(Names) + 3) + 2
